@@ -188,6 +188,16 @@ LIB_METHODS = {
     ('vec_double', 'emplace_back'): ('vec_double_emplace_back', ()),
     ('arr_double_100', 'at'): ('*arr_double_100_at', ()),
     ('arr_vec_size_256', 'at'): ('*arr_vec_size_256_at', ()),
+    ('vec_size', 'size'): ('vec_size_size', ()),
+    ('vec_size', 'empty'): ('vec_size_empty', ()),
+    ('vec_size', 'clear'): ('vec_size_clear', ()),
+    ('vec_size', 'front'): ('*vec_size_front', ()),
+    ('vec_size', 'at'): ('*vec_size_at', ()),
+    ('vec_size', 'push_back'): ('vec_size_emplace_back', ()),
+    ('vec_double', 'empty'): ('vec_double_empty', ()),
+    ('vec_double', 'push_back'): ('vec_double_emplace_back', ()),
+    ('vec_double', 'back'): ('*vec_double_back', ()),
+    ('vec_double', 'front'): ('*vec_double_front', ()),
     ('vec_size', 'reserve'): ('vec_size_reserve', ()),
     ('vec_size', 'emplace_back'): ('vec_size_emplace_back', ()),
     ('vec_size', 'back'): ('*vec_size_back', ()),
@@ -490,6 +500,7 @@ class Emitter:
         self.used_extern = []
         self.ret_ref = False
         self.self_value = None
+        self.temp_ctx = None
 
     # ---- helpers -------------------------------------------------------------
     def w(self, s, ind=0):
@@ -950,8 +961,20 @@ class Emitter:
                     die('throw in a function returning %s is not modelled' % rt, s)
                 self.w('return;', ind)
         else:
-            # expression statement
-            self.w(self.expr_stmt(s) + ';', ind)
+            # expression statement (a full expression: temporaries are destroyed after it)
+            self.temp_ctx = {'pre': [], 'post': []}
+            text = self.expr_stmt(s)
+            ctx, self.temp_ctx = self.temp_ctx, None
+            if ctx['pre']:
+                self.w('{', ind)
+                for l in ctx['pre']:
+                    self.w(l, ind + 1)
+                self.w(text + ';', ind + 1)
+                for l in ctx['post']:
+                    self.w(l, ind + 1)
+                self.w('}', ind)
+            else:
+                self.w(text + ';', ind)
 
     def expr_stmt(self, e):
         e = self.unwrap(e)
@@ -1058,7 +1081,19 @@ class Emitter:
     def _pass(self, e):
         return self.expr(e['inner'][0])
     x_ExprWithCleanups = _pass
-    x_CXXBindTemporaryExpr = _pass
+
+    NEEDS_TEMP_DTOR = ('shared_ptr_size',)
+
+    def x_CXXBindTemporaryExpr(self, e):
+        # a temporary of a class type with a non-trivial destructor that is NOT elided into a variable / return value
+        # (those are unwrapped by the callers): it lives until the end of the full expression, then it is destroyed
+        ct = self.ctype(e)
+        if ct in self.NEEDS_TEMP_DTOR and self.temp_ctx is not None:
+            name = self.fresh('verif_tmp')
+            self.temp_ctx['pre'].append('%s %s = %s;' % (ct, name, self.expr(e['inner'][0])))
+            self.temp_ctx['post'].insert(0, '%s_dtor(&%s); /* temporary destroyed at the end of the full expression */' % (ct, name))
+            return name
+        return self.expr(e['inner'][0])
     x_MaterializeTemporaryExpr = _pass
     x_ConstantExpr = _pass
     x_SubstNonTypeTemplateParmExpr = _pass
@@ -1361,6 +1396,14 @@ class Emitter:
             return self.own_call(f, None, args, e)
         if rn == 'move' or rn == 'forward':
             return self.expr(args[0])
+        if rn == 'exchange' and len(args) == 2 and self.ctype_of_expr(args[0]) == 'shared_ptr_size':
+            # std::exchange(sp, nullptr): the old value is returned (ownership moves into the result), sp becomes empty
+            a1 = self.unwrap(args[1])
+            while a1.get('kind') in ('ImplicitCastExpr', 'MaterializeTemporaryExpr', 'CXXBindTemporaryExpr', 'CXXConstructExpr') and a1.get('inner'):
+                a1 = self.unwrap(a1['inner'][0])
+            if a1.get('kind') != 'CXXNullPtrLiteralExpr':
+                die('std::exchange on a shared_ptr with a non-null new value', e)
+            return 'shared_ptr_size_exchange_null(%s)' % self.addr(args[0])
         if rn in ('max', 'min') and len(args) == 2:
             # std::min / std::max of two values (by-value stub; the reference result is only read)
             ct = self.ctype(e)
@@ -1487,7 +1530,7 @@ class Emitter:
             if a0t == 'weak_ptr_size':
                 return 'weak_ptr_size_assign(%s, %s)' % (self.addr(args[0]), self.expr(args[1]))
             if a0t == 'shared_ptr_size':
-                return 'shared_ptr_size_move_assign(%s, %s)' % (self.addr(args[0]), self.expr(args[1]))
+                return 'shared_ptr_size_move_assign(%s, %s)' % (self.addr(args[0]), self.addr(self.strip_move(args[1])))
             if a0t == 'vec_double':
                 u = self.unwrap(args[1])
                 vals = self.init_list_values(u)
